@@ -8,6 +8,7 @@ import (
 	"math/rand"
 	"runtime"
 	"sort"
+	"strconv"
 	"strings"
 	"sync"
 	"sync/atomic"
@@ -302,6 +303,14 @@ func ruCheckRoman(rep *ruRep, s string, v uint64, ok bool) {
 }
 
 // ruCheckRomanRule: DefaultParser and Valid, string and []byte, under one rule value (any int: the rule is tested bit by bit).
+// ruClip quotes a text for a failure message; long ones by length, head and tail.
+func ruClip(s string) string {
+	if len(s) <= 200 {
+		return strconv.Quote(s)
+	}
+	return fmt.Sprintf("%d bytes %q…%q", len(s), s[:40], s[len(s)-30:])
+}
+
 func ruCheckRomanRule(rep *ruRep, s string, v uint64, ok bool, rule int) {
 	{
 		line := func() string { return fmt.Sprintf("roman.parse %d %d %s", roman.MaxInputLength, rule, hx([]byte(s))) }
@@ -318,15 +327,15 @@ func ruCheckRomanRule(rep *ruRep, s string, v uint64, ok bool, rule int) {
 				switch {
 				case (p.e == nil) != wantOK:
 					if wantOK {
-						rep.fail("C10.reject", line(), "%q (input type %d) rejected: %v", s, i, p.e)
+						rep.fail("C10.reject", line(), "%s (input type %d) rejected: %v", ruClip(s), i, p.e)
 					} else {
-						rep.fail("C10.accept", line(), "%q (input type %d) accepted as %d", s, i, uint64(p.n))
+						rep.fail("C10.accept", line(), "%s (input type %d) accepted as %d", ruClip(s), i, uint64(p.n))
 					}
 				case wantOK && uint64(p.n) != v:
-					rep.fail("C10.value", line(), "%q (input type %d) -> %d, want %d", s, i, uint64(p.n), v)
+					rep.fail("C10.value", line(), "%s (input type %d) -> %d, want %d", ruClip(s), i, uint64(p.n), v)
 				}
 				if p.e != nil && p.n != 0 {
-					rep.fail("C10.zero", line(), "%q -> %d next to error", s, uint64(p.n))
+					rep.fail("C10.zero", line(), "%s -> %d next to error", ruClip(s), uint64(p.n))
 				}
 			}
 			if e1 != nil && !ruRomanTyped[string](e1) {
@@ -338,7 +347,7 @@ func ruCheckRomanRule(rep *ruRep, s string, v uint64, ok bool, rule int) {
 			ev1 := roman.Valid(s, r)
 			ev2 := roman.Valid([]byte(s), r)
 			if (ev1 == nil) != wantOK || (ev2 == nil) != wantOK {
-				rep.fail("C10.valid", fmt.Sprintf("roman.valid %d %d %s", roman.MaxInputLength, rule, hx([]byte(s))), "%q: Valid -> %v / %v, want ok=%v", s, ev1, ev2, wantOK)
+				rep.fail("C10.valid", fmt.Sprintf("roman.valid %d %d %s", roman.MaxInputLength, rule, hx([]byte(s))), "%s: Valid -> %v / %v, want ok=%v", ruClip(s), ev1, ev2, wantOK)
 			}
 			if ev1 != nil && !ruRomanTyped[string](ev1) || ev2 != nil && !ruRomanTyped[[]byte](ev2) {
 				rep.fail("C10.typed", line(), "Valid: %T %T", ev1, ev2)
@@ -353,19 +362,26 @@ func ruCheckRomanUnmarshal(rep *ruRep, s string, v uint64, ok bool) {
 	ruGuard(rep, "C10.unmarshal", line, func() {
 		rep.evals++
 		const sentinel = roman.Number(987654321)
-		u := sentinel
-		err := u.UnmarshalText([]byte(s))
-		switch {
-		case (err == nil) != ok:
-			rep.fail("C10.unmarshal", line(), "%q: UnmarshalText -> %d %v, want ok=%v", s, uint64(u), err, ok)
-		case ok && uint64(u) != v:
-			rep.fail("C10.unmarshal.value", line(), "%q: UnmarshalText -> %d, want %d", s, uint64(u), v)
-		case !ok && u != sentinel:
-			rep.fail("C10.unmarshal.recv", line(), "%q: receiver changed to %d on error", s, uint64(u))
+		datas := [][]byte{[]byte(s)}
+		if s == "" {
+			// the empty text as a nil slice, an empty one and an empty one with capacity: all three are "empty text is zero"
+			datas = [][]byte{nil, {}, make([]byte, 0, 4)}
 		}
-		if err != nil {
-			if typed, _ := romanPE(err); !typed {
-				rep.fail("C10.typed", line(), "UnmarshalText: %T", err)
+		for _, data := range datas {
+			u := sentinel
+			err := u.UnmarshalText(data)
+			switch {
+			case (err == nil) != ok:
+				rep.fail("C10.unmarshal", line(), "%s (nil data: %v): UnmarshalText -> %d %v, want ok=%v", ruClip(s), data == nil, uint64(u), err, ok)
+			case ok && uint64(u) != v:
+				rep.fail("C10.unmarshal.value", line(), "%s (nil data: %v): UnmarshalText onto a receiver holding %d -> %d, want %d", ruClip(s), data == nil, uint64(sentinel), uint64(u), v)
+			case !ok && u != sentinel:
+				rep.fail("C10.unmarshal.recv", line(), "%s: receiver changed to %d on error", ruClip(s), uint64(u))
+			}
+			if err != nil {
+				if typed, _ := romanPE(err); !typed {
+					rep.fail("C10.typed", line(), "UnmarshalText: %T", err)
+				}
 			}
 		}
 	})
@@ -628,6 +644,27 @@ func propC02(c *Ctx) {
 				c.Op("roman.parse 0 0 " + roundtripOff)
 				c.Op("roman.valid 0 1 " + roundtripOff)
 			}
+		}
+		// around 2^32: the formatter is judged on the whole numeral (4.3 MB: length, thousands, tail), the parser on one of
+		// them (about a second); a numeral for 2^33 and beyond is not affordable in the quick tier
+		for i, n := range []uint64{1<<32 - 1, 1 << 32, 1<<32 + 1994} {
+			n := n
+			line := func() string { return fmt.Sprintf("roman.format %d 0 -", n) }
+			ruGuard(repL, "C02.large", line, func() {
+				repL.evals++
+				k, tail := int(n/1000), ruNumeral(n%1000, 0)
+				b, err := roman.DefaultFormatter(nil, roman.Number(n), 0)
+				if err != nil || len(b) != k+len(tail) || strings.Count(string(b[:min(k, len(b))]), "M") != min(k, len(b)) || !strings.HasSuffix(string(b), tail) {
+					repL.fail("C02.large.canonical", line(), "numeral of %d bytes (%v), want %d bytes: %d x M + %q", len(b), err, k+len(tail), k, tail)
+					return
+				}
+				if i == 2 {
+					p, err := roman.DefaultParser(b, 0)
+					if err != nil || uint64(p) != n {
+						repL.fail("C02.large.roundtrip", line(), "limit off, numeral of %d bytes -> %d %v, want %d", len(b), uint64(p), err, n)
+					}
+				}
+			})
 		}
 		repL.merge(c)
 	}()
@@ -1067,6 +1104,44 @@ func propC10(c *Ctx) {
 		}
 	}
 	rep.merge(c)
+	// ---- "any number of M": thousands counts around 2^16 and up to 2^20 with the limit off, tails of every style, through
+	// C10's own oracle (a count kept in 16 bits, or capped, loses them). 2^32 thousands would be a text of 4 GiB.
+	func() {
+		defer ruSetRomanMax(0)()
+		repM := &ruRep{}
+		for ki, k := range []int{65535, 65536, 65537, 70000, 131072} {
+			for ti, tail := range []string{"CDXLIV", "dccclxxxviii", "IIIII"} {
+				ms := strings.Repeat("M", k)
+				if (ki+ti)%2 == 1 {
+					ms = strings.Repeat("m", k)
+				}
+				s := ms + tail
+				v, ok := lang.recognise(s)
+				if ok && v != uint64(k)*1000+ruEvalSymbols(ruUpper(tail)) {
+					repM.fail("C10.oracle", "", "recogniser value %d for %d x M + %q", v, k, tail)
+				}
+				repM.nt++
+				if (k == 65536 || k == 65537) && ti == ki%2 {
+					ruCheckRoman(repM, s, v, ok) // every entry point, both rules
+					continue
+				}
+				// the regexp needs some 20 ms per call on these texts: the parser and the validity check once each
+				repM.evals++
+				p, err := roman.DefaultParser(s, 0)
+				ev := roman.Valid([]byte(s), 0)
+				if (err == nil) != ok || (ev == nil) != ok || ok && uint64(p) != v || !ok && p != 0 {
+					repM.fail("C10.value", "roman.parse 0 0 "+hx([]byte(s)), "%d x %s + %q: %d %v / %v, want %d ok=%v", k, ms[:1], tail, uint64(p), err, ev, v, ok)
+				}
+			}
+		}
+		big := strings.Repeat("M", 1<<20) + "mcdxliv"
+		p, err := roman.DefaultParser(big, 0)
+		repM.evals++
+		if want := uint64(1<<20+1)*1000 + 444; err != nil || uint64(p) != want {
+			repM.fail("C10.value", fmt.Sprintf("roman.parse 0 0 <%d x M + mcdxliv>", 1<<20), "%d %v, want %d", uint64(p), err, want)
+		}
+		repM.merge(c)
+	}()
 }
 
 // ------------------------------------------------------------------------------ uu oracles
@@ -1552,7 +1627,7 @@ func propC05(c *Ctx) {
 			line := fmt.Sprintf("uu.parse %d 0 %s", shipped.uuML, hx([]byte(txt)))
 			g1, e1 := uu.DefaultParser(txt, 0)
 			g2, e2 := uu.DefaultParser([]byte(txt), 0)
-			var u uu.ID
+			u := uu.ID{Higher: 0x1111222233334444, Lower: 0x5555666677778888} // non-zero receiver (the zero ID is one of the backgrounds)
 			eu := u.UnmarshalText([]byte(txt))
 			c.Check(line)
 			if e1 != nil || e2 != nil || eu != nil || g1 != id || g2 != id || u != id {
